@@ -16,6 +16,8 @@ Files1 == {<<F(l, p, a)>> : l \in FLens, p \in {"ok", "absent", "emptylist"}, a 
 RL == {N(-3616), N(0), N(20000), N(49153)}
 Files2 == {<<F(l1, "ok", FALSE), F(l2, "ok", a)>> : l1 \in RL \cup {H62}, l2 \in RL \cup {H62}, a \in BOOLEAN}
 Files3 == {<<F(N(20000), "ok", FALSE), F(N(l2), "ok", TRUE), F(N(l3), "ok", FALSE)>> : l2 \in {0, 12768, -3616}, l3 \in {0, 1, 49153}}
+          \cup {<<F(H63, "ok", FALSE), F(H63, "ok", FALSE), F(N(16386), "ok", FALSE)>>,     \* the sum wraps past 2^64 to 16384
+                <<F(H63, "ok", FALSE), F(N(20000), "ok", FALSE), F(H63, "ok", FALSE)>>}
           \cup {<<F(N(0), "ok", FALSE), F(N(0), "ok", FALSE), F(N(0), "ok", FALSE)>>, <<F(N(0), "ok", FALSE), F(N(0), "ok", FALSE), F(N(5), "ok", FALSE)>>}
 Tables == {"absent", "notmult20", "exact", "oneshort", "onelong"}
 Names  == {"absent", "empty", "ok"}
